@@ -7,4 +7,5 @@ pub mod c17;
 pub mod c18;
 pub mod c19;
 pub mod zoo;
+pub mod zoo2;
 pub mod props;
